@@ -61,6 +61,8 @@ def _mk_super(cls):
             return _b.super(*a)
         fr = _sys._getframe(1)
         me = fr.f_locals[fr.f_code.co_varnames[0]]
+        if "__class__" in fr.f_locals:              # a method of a class defined inside the extracted text: its own class cell
+            return _b.super(fr.f_locals["__class__"], me)
         return _b.super(cls, me)
     return _super
 
